@@ -36,7 +36,17 @@ META = {
                   "generators, the same request issued twice with the first result overwritten, inputs and mesh attribute "
                   "names unchanged by a call, scales 2^-23 and 2^130, zero-area faces, coincident control points. "
                   "Defects #36/#37/#38 were repaired by fix: commits; the theorems are about the repaired code.",
-    "level_note": "Grid resolution: the model's grid_res is the EXACT nearest integer d-th root (iroot_round, proved to "
+    "level_note": "Deliberately left free (not constrained by oracle, driver or Coq checkers): the exception class and "
+                  "message of any refusal (a refusal is judged from the input: parameters outside [0,1] must be refused; "
+                  "unknown mode strings, empty boxes, point clouds of dimension > 3, empty control nets, zero counts / zero "
+                  "radius / empty custom positions and argument forms the text does not name - numpy scalars, generators, "
+                  "tuples - may be refused or answered correctly); the order of the returned samples and of grid points; the "
+                  "numbering of exported vertices, the starting corner and (common) orientation of exported faces, the "
+                  "direction of exported edges; names / presence of the t, uv_coords and other attributes, extra attributes left on "
+                  "a mesh, warnings, dtypes, types of returned scalars; the mechanism by which edges/faces are drawn (the recorded "
+                  "choice(...) protocol only feeds the correspondence: a mismatch is 'unproved', never a concrete violation; "
+                  "concrete share violations come from the geometry of 200-draw runs). Floats are compared with 1e-9 relative "
+                  "to the magnitude of the input. Grid resolution: the model's grid_res is the EXACT nearest integer d-th root (iroot_round, proved to "
                   "satisfy (r-1/2)^d <= n < (r+1/2)^d); the code computes round(np.power(n_pts, 1/box.dim)) in binary64 with "
                   "round-half-even. Their agreement is not a theorem: it is checked on every run for ALL n_pts <= 100000 (quick; "
                   "2000000 thorough) and box dimensions 1..8 by a kernel-checked run-length table (C19_grid_resolution_table_sound "
@@ -195,7 +205,7 @@ def add_scenario(rng, c, ok):
     r = rng.random()
     if r < 0.55:
         return
-    c["pre"] = "compute" if r < 0.85 else "junk"
+    c["pre"] = "compute" if r < 0.78 else ("sample" if r < 0.88 else "junk")
     if c["pre"] == "junk":
         c["junk"] = {"normals": [[dy(rng), dy(rng), dy(rng)] for _ in range(3)], "scalars": [rng.randint(0, 40) / 8 for _ in range(3)]}
     if rng.random() < 0.85:
@@ -562,10 +572,15 @@ def oracle(c, obs):
     """None, or a sentence saying how the observation violates C19."""
     k = c["kind"]
     exc = obs.get("exc")
-    if exc and exc.startswith("other:"):
-        return "%s raised an unexpected exception: %s" % (k, exc[6:])
+    # A refusal is judged from the INPUT: where the text wants an answer any exception is a violation, where a refusal is
+    # legitimate (or the text does not speak about the input) any exception class / message is accepted.
+    unusual = bool(c.get("rep") or c.get("net_as") or c.get("custom_as"))     # argument forms the text does not name
+    degenerate = (c.get("n") == 0 or c.get("n_pts") == 0 or c.get("n1") == 0 or c.get("n2") == 0 or c.get("radius") == 0
+                  or c.get("custom") == [])
+    if exc and (unusual or degenerate):
+        return None
     if obs.get("inputs_changed"):
-        return "%s modified its inputs (or left attributes behind on the mesh): %s" % (k, obs["inputs_changed"])
+        return "%s modified the geometry it was given: %s" % (k, obs["inputs_changed"])
     if k in ("sphere", "ball"):
         if exc:
             return "%s raised %s" % (k, exc)
@@ -582,30 +597,28 @@ def oracle(c, obs):
         return None
     if k == "box":
         p1, p2, d = c["p1"], c["p2"], len(c["p1"])
-        if c["mode"] not in ("uniform", "grid"):
-            return None if exc == "badmode" else "invalid mode %r accepted (%s)" % (c["mode"], exc or "returned points")
-        if any(a >= b for a, b in zip(p1, p2)):
-            return None if exc == "emptybox" else "empty box not rejected (%s)" % (exc or "returned points")
-        if d > 3 and c["pc"]:
-            return None if exc == "dimgt3" else "point cloud of dimension %d not rejected (%s)" % (d, exc or "returned")
+        # the text does not speak about unknown mode strings, empty boxes or point clouds of dimension > 3: a refusal
+        # (any class) is accepted, and so is an answer that stays in the (closed) box
+        free = c["mode"] not in ("uniform", "grid") or any(a >= b for a, b in zip(p1, p2)) or (d > 3 and c["pc"])
         if exc:
-            return "sample_AABB raised %s on a valid request" % exc
+            return None if free else "sample_AABB raised %s on a valid request" % exc
         want = c["n"] if c["mode"] == "uniform" else nearest_root(c["n"], d) ** d
+        if free:
+            want = len(obs["out"])
         if len(obs["out"]) != want:
             return "sample_AABB(%s) returned %d points, expected %d" % (c["mode"], len(obs["out"]), want)
         S = max(abs(x) for x in p1 + p2) or 1.0
         for p in obs["out"]:
             if len(p) != d or any(not (a - TOL * S <= x <= b + TOL * S) for x, a, b in zip(p, p1, p2)):
                 return "sample_AABB(%s) point %s is outside the box %s -> %s" % (c["mode"], p, p1, p2)
-        if c["mode"] == "grid" and len({tuple(p) for p in obs["out"]}) != want:
+        if c["mode"] == "grid" and not free and len({tuple(p) for p in obs["out"]}) != want:
             return "grid samples are not distinct"
         return None
     if k == "polyline":
         V, E = obs["V"], obs["E"]
         if not E:
-            if c["n"] == 0:
-                return None if not exc else "raised %s for n=0" % exc
-            return None if exc == "index" else "polyline without edges: %s" % (exc or "returned points")
+            # nothing to sample: any refusal is fine; an answer can only be empty
+            return None if (exc or not obs["out"]) else "polyline without edges returned points %s" % obs["out"][:2]
         if exc:
             return "sample_polyline raised %s" % exc
         if len(obs["out"]) != c["n"]:
@@ -620,20 +633,15 @@ def oracle(c, obs):
             m = prob_check(x["p"], lens, "length") if x["p"] is not None else "choice called without p"
             if m:
                 return m
-        # deterministic core of "shares follow length": with two or more edges the edge of every sample is drawn by
-        # ONE call choice(NE, size=n, p=lengths/sum); only a single edge may bypass it
-        used = [0] * c["n"]
-        if len(E) >= 2:
-            if len(ch) != 1 or ch[0]["a"] != len(E) or ch[0]["size"] != c["n"] or ch[0]["p"] is None:
-                return ("polyline with %d edges of lengths %s: edge indices were not drawn by one call choice(%d, size=%d, "
-                        "p=lengths/sum); recorded choice calls: %s" % (len(E), lens, len(E), c["n"],
-                                                                       [(x["a"], x["size"]) for x in ch]))
-            used = ch[0]["out"]
-        for p, e in zip(obs["out"], used):
-            if not (0 <= e < len(E)) or seg_dist(p, V[E[e][0]], V[E[e][1]]) > 1e-9 * scale:
-                return "polyline sample %s is not on edge %s, the one drawn for it" % (p, e)
         if c.get("many"):
             tot = sum(lens)
+            cnt = [0] * len(E)
+            for p in obs["out"]:
+                ds = [seg_dist(p, V[a], V[b]) for a, b in E]
+                cnt[ds.index(min(ds))] += 1
+            m = share_check(cnt, [x / tot for x in lens], "edge", "length")
+            if m:
+                return m
             for k2, (a, b) in enumerate(E):
                 if lens[k2] >= 0.08 * tot and not any(seg_dist(p, V[a], V[b]) <= 1e-9 * scale for p in obs["out"]):
                     return ("edge %d holds %.0f%% of the length but received none of %d samples (shares per edge: %s)"
@@ -671,20 +679,16 @@ def oracle(c, obs):
             m = prob_check(x["p"], ar, "area") if x["p"] is not None else "choice called without p"
             if m:
                 return m
-        used = [0] * c["n"]
-        if len(Fc) >= 2:
-            if len(ch) != 1 or ch[0]["a"] != len(Fc) or ch[0]["size"] != c["n"] or ch[0]["p"] is None:
-                return ("surface with %d faces of areas %s: face indices were not drawn by one call choice(%d, size=%d, "
-                        "p=areas/sum); recorded choice calls: %s" % (len(Fc), ar, len(Fc), c["n"],
-                                                                     [(x["a"], x["size"]) for x in ch]))
-            used = ch[0]["out"]
-        elif ch:
-            used = ch[0]["out"]
-        for p, f in zip(obs["out"], used):
-            if not (0 <= f < len(Fc)) or not in_triangle(p, V[Fc[f][0]], V[Fc[f][1]], V[Fc[f][2]]):
-                return "surface sample %s is not in face %s, the one drawn for it" % (p, f)
         if c.get("many"):
             tot = sum(ar)
+            cnt = [0] * len(Fc)
+            for p in obs["out"]:
+                ins = [i2 for i2, f in enumerate(Fc) if in_triangle(p, V[f[0]], V[f[1]], V[f[2]])]
+                if ins:
+                    cnt[ins[0]] += 1
+            m = share_check(cnt, [x / tot for x in ar], "face", "area")
+            if m:
+                return m
             for k2, f in enumerate(Fc):
                 if ar[k2] >= 0.08 * tot and not any(in_triangle(p, V[f[0]], V[f[1]], V[f[2]]) for p in obs["out"]):
                     return ("face %d holds %.0f%% of the area but received none of %d samples" % (k2, 100 * ar[k2] / tot, c["n"]))
@@ -693,50 +697,57 @@ def oracle(c, obs):
         params = [c["t"]] if k == "curve" else [c["u"], c["v"]]
         P = c["P"] if k == "curve" else c["rows"]
         if any(not (0 <= t <= 1) for t in params):
-            return None if exc == "range" else "parameter %s outside [0,1] not rejected (%s)" % (params, exc or obs.get("out"))
+            # must be rejected: any exception class will do
+            return None if exc else "parameter %s outside [0,1] not rejected (returned %s)" % (params, obs.get("out"))
         if not P or (k == "patch" and not P[0]):
-            return None if exc else "empty control net evaluated to %s" % obs.get("out")
+            return None                                   # empty control net: the text does not say
         if exc:
             return "Bezier evaluation raised %s for parameters %s in [0,1]" % (exc, params)
         want = bernstein(P, params[0]) if k == "curve" else patch_bernstein(P, params[0], params[1])
         got = obs["out"]
-        flat0 = P if k == "curve" else [p for row in P for p in row]
-        S = max(abs(x) for p in flat0 for x in p) or 1.0
+        flat = P if k == "curve" else [p for row in P for p in row]
+        S = max(abs(x) for p in flat for x in p) or 1.0
         if len(got) != len(want) or any(abs(g - float(w)) > TOL * S for g, w in zip(got, want)):
             return "Bezier value %s differs from the Bernstein polynomial %s at %s" % (got, [float(w) for w in want], params)
-        flat = P if k == "curve" else [p for row in P for p in row]
         if not hull_box_ok(flat, got):
             return "Bezier value %s leaves the bounding box of the control points" % got
-        if k == "curve":
-            if params[0] == 0 and got != [float(x) for x in P[0]]:
-                return "curve at t=0 is %s, first control point is %s" % (got, P[0])
-            if params[0] == 1 and got != [float(x) for x in P[-1]]:
-                return "curve at t=1 is %s, last control point is %s" % (got, P[-1])
-        elif params[0] in (0, 1) and params[1] in (0, 1):
-            corner = P[-1 if params[1] == 1 else 0][-1 if params[0] == 1 else 0]
-            if got != [float(x) for x in corner]:
-                return "patch at corner %s is %s, corner control point is %s" % (params, got, corner)
-        return None
+        return None        # end points / corners: the Bernstein value at 0 / 1 IS the control point (checked above)
     if k == "polylinex":
         n_pts = 100 if c["n_pts"] is None else c["n_pts"]
         ts = c["custom"] if c["custom"] is not None else ([i / (n_pts - 1) for i in range(n_pts)] if n_pts > 1 else [0.0] * n_pts)
         if any(not (0 <= t <= 1) for t in ts):
-            return None if exc == "range" else "parameter outside [0,1] not rejected by as_polyline"
+            return None if exc else "parameter outside [0,1] not rejected by as_polyline"
         if exc:
             return "as_polyline raised %s" % exc
         m = len(ts)
-        if len(obs["verts"]) != m:
-            return "as_polyline has %d vertices for %d sample positions" % (len(obs["verts"]), m)
-        if sorted(map(tuple, obs["edges"])) != [(i, i + 1) for i in range(m - 1)]:
+        verts = obs["verts"]
+        if len(verts) != m:
+            return "as_polyline has %d vertices for %d sample positions" % (len(verts), m)
+        S = max(abs(x) for p in c["P"] for x in p) or 1.0
+
+        def at(t):
+            w = [float(x) for x in bernstein(c["P"], t)]
+            return w + [0.0] * (3 - len(w))
+
+        def same(a, b):
+            return all(abs(x - y) <= TOL * S for x, y in zip(a, b))
+        # parameter of every vertex: from the attribute when there is one, else recovered from the position; the
+        # numbering of the vertices is free, the multiset of parameters is not
+        par = obs.get("t")
+        if par is None or any(not same(v, at(t)) for v, t in zip(verts, par)):
+            par, free_ts = [], list(ts)
+            for v in verts:
+                hit = [t for t in free_ts if same(v, at(t))]
+                if not hit:
+                    return "vertex %s is not the curve at any of the sampled positions %s" % (v, ts[:8])
+                par.append(hit[0])
+                free_ts.remove(hit[0])
+        if any(not close(a, b) for a, b in zip(sorted(par), sorted(ts))):
+            return "vertex parameters %s are not the sampled positions %s" % (sorted(par)[:8], sorted(ts)[:8])
+        rank = {v: r for r, v in enumerate(sorted(range(m), key=lambda q: (par[q], q)))}
+        got_e = sorted(tuple(sorted((rank[a], rank[b]))) for a, b in obs["edges"] if 0 <= a < m and 0 <= b < m)
+        if len(got_e) != len(obs["edges"]) or got_e != [(i, i + 1) for i in range(m - 1)]:
             return "as_polyline edges %s do not link the %d consecutive samples" % (obs["edges"][:8], m)
-        for i, (vtx, t) in enumerate(zip(obs["verts"], obs["t"])):
-            if not close(t, ts[i]):
-                return "vertex %d carries parameter %s, expected %s" % (i, t, ts[i])
-            want = [float(x) for x in bernstein(c["P"], t)]
-            want = want + [0.0] * (3 - len(want))
-            S = max(abs(x) for p in c["P"] for x in p) or 1.0
-            if any(abs(a - b) > TOL * S for a, b in zip(vtx, want)):
-                return "vertex %d = %s is not the curve at t=%s (%s)" % (i, vtx, t, want)
         return None
     if k == "surfacex":
         n1, n2 = (20, 20) if c["n1"] is None else (c["n1"], c["n2"])      # documented defaults of as_surface
@@ -744,7 +755,8 @@ def oracle(c, obs):
             return "as_surface(%d,%d) raised %s" % (n1, n2, exc)
         U = [i / (n1 - 1) for i in range(n1)] if n1 > 1 else [0.0] * n1
         Vv = [i / (n2 - 1) for i in range(n2)] if n2 > 1 else [0.0] * n2
-        nv = len(obs["verts"])
+        verts = obs["verts"]
+        nv = len(verts)
         if nv != n1 * n2:
             return "as_surface(%d,%d) has %d vertices" % (n1, n2, nv)
         if len(obs["faces"]) != max(n1 - 1, 0) * max(n2 - 1, 0):
@@ -752,30 +764,91 @@ def oracle(c, obs):
         for f in obs["faces"]:
             if len(f) != 4 or any(not (0 <= x < nv) for x in f):
                 return "as_surface(%d,%d): face %s has an index outside [0,%d)" % (n1, n2, f, nv)
-        for i, (vtx, uv) in enumerate(zip(obs["verts"], obs["uv"])):
-            want = [float(x) for x in patch_bernstein(c["rows"], uv[0], uv[1])]
-            S = max(abs(x) for row in c["rows"] for p in row for x in p) or 1.0
-            if any(abs(a - b) > TOL * S for a, b in zip(vtx, want)):
-                return "vertex %d = %s is not the patch at uv=%s" % (i, vtx, uv)
-        cells = set()
+        S = max(abs(x) for row in c["rows"] for p in row for x in p) or 1.0
+        grid = {(i, j): [float(x) for x in patch_bernstein(c["rows"], U[i], Vv[j])] for i in range(n1) for j in range(n2)}
+
+        def same(a, b):
+            return all(abs(x - y) <= TOL * S for x, y in zip(a, b))
+        # which grid sample every vertex is: from the uv attribute when there is one, else from the position
+        # (vertex numbering is free; every sample must be present exactly once)
+        cell_of = None
+        uv = obs.get("uv")
+        if uv is not None:
+            cand = [(min(range(n1), key=lambda a: abs(U[a] - q[0])), min(range(n2), key=lambda a: abs(Vv[a] - q[1]))) for q in uv]
+            if all(same(v, grid[ij]) for v, ij in zip(verts, cand)) and len(set(cand)) == nv:
+                cell_of = cand
+        if cell_of is None:
+            cell_of, unused = [], dict(grid)
+            for v in verts:
+                hit = [ij for ij in unused if same(v, unused[ij])]
+                if not hit:
+                    return "as_surface(%d,%d): vertex %s is not the patch at an unused grid sample" % (n1, n2, v)
+                cell_of.append(hit[0])
+                del unused[hit[0]]
+        cells, orient = set(), set()
         for f in obs["faces"]:
-            uvs = [obs["uv"][x] for x in f]
-            # grid consistency: corners (u_i,v_j), (u_i,v_j+1), (u_i+1,v_j+1), (u_i+1,v_j) of one cell
-            try:
-                i = min(range(n1), key=lambda a: abs(U[a] - uvs[0][0]))
-                j = min(range(n2), key=lambda a: abs(Vv[a] - uvs[0][1]))
-                want = [(U[i], Vv[j]), (U[i], Vv[j + 1]), (U[i + 1], Vv[j + 1]), (U[i + 1], Vv[j])]
-            except IndexError:
-                return "as_surface(%d,%d): face %s does not start at a cell corner" % (n1, n2, f)
-            if any(not (close(a[0], b[0]) and close(a[1], b[1])) for a, b in zip(uvs, want)):
-                return "as_surface(%d,%d): face %s joins parameters %s, not the corners of one grid cell" % (n1, n2, f, uvs)
-            cells.add((i, j))
+            ij = [cell_of[x] for x in f]
+            i0, j0 = min(a for a, _ in ij), min(b for _, b in ij)
+            ring = [(i0, j0), (i0, j0 + 1), (i0 + 1, j0 + 1), (i0 + 1, j0)]
+            rots = [ring[r:] + ring[:r] for r in range(4)]
+            if ij in rots:
+                orient.add(1)
+            elif ij[::-1] in rots:
+                orient.add(-1)
+            else:
+                return "as_surface(%d,%d): face %s joins grid samples %s, not the corners of one grid cell in cyclic order" % (n1, n2, f, ij)
+            cells.add((i0, j0))
         if len(cells) != len(obs["faces"]):
             return "as_surface(%d,%d): some grid cell is covered twice" % (n1, n2)
+        if len(orient) > 1:
+            return "as_surface(%d,%d): faces are not consistently oriented" % (n1, n2)
         return None
     if k in ("freq_polyline", "freq_surface"):
         return obs.get("fail")
     return "unknown case kind"
+
+
+def share_check(counts, shares, elt, what):
+    """statistical but with a vanishing false-alarm rate (fixed seeds, threshold far in the tail): the observed counts per
+    edge/face over a few hundred draws must be compatible with the length/area shares"""
+    n = sum(counts)
+    chi, df = 0.0, -1
+    for cnt, q in zip(counts, shares):
+        if q * n >= 5:
+            chi += (cnt - q * n) ** 2 / (q * n)
+            df += 1
+        elif q == 0 and cnt:
+            return "%d samples on an %s of zero %s" % (cnt, elt, what)
+    df = max(df, 1)
+    if chi > df + 10 * math.sqrt(2 * df) + 30:
+        return ("samples per %s %s do not follow the %s shares %s (chi2 = %.0f on %d degrees of freedom, %d draws)"
+                % (elt, counts, what, [round(q, 3) for q in shares], chi, df, n))
+    return None
+
+
+def protocol_check(c, obs):
+    """Mechanism, not property: with >= 2 edges/faces the model expects ONE call choice(N, size=n, p=weights/sum) and each
+    sample on the edge/face drawn for it. A mismatch only means the model no longer describes the code (unproved)."""
+    k = c["kind"]
+    if k not in ("polyline", "surface") or "exc" in obs or "out" not in obs:
+        return None
+    elems = obs["E"] if k == "polyline" else obs["F"]
+    V = obs["V"]
+    ch = draws(obs, "choice")
+    if len(elems) >= 2:
+        if len(ch) != 1 or ch[0]["a"] != len(elems) or ch[0]["size"] != c["n"] or ch[0]["p"] is None:
+            return "%s with %d elements: indices were not drawn by one call choice(%d, size=%d, p=...); recorded: %s" % (
+                k, len(elems), len(elems), c["n"], [(x["a"], x["size"]) for x in ch])
+    used = ch[0]["out"] if ch else [0] * len(obs["out"])
+    scale = max([abs(x) for p in V for x in p] + [1e-300])
+    for p, e in zip(obs["out"], used):
+        if not (0 <= e < len(elems)):
+            return "%s: drawn index %s out of range" % (k, e)
+        if k == "polyline" and seg_dist(p, V[elems[e][0]], V[elems[e][1]]) > 1e-9 * scale:
+            return "polyline sample %s is not on edge %s, the one drawn for it" % (p, e)
+        if k == "surface" and not in_triangle(p, V[elems[e][0]], V[elems[e][1]], V[elems[e][2]]):
+            return "surface sample %s is not in face %s, the one drawn for it" % (p, e)
+    return None
 
 
 def prob_check(p, w, what):
@@ -979,7 +1052,7 @@ def run(ctx):
             ctx.count("surface NF=%s" % (len(o["F"]) if len(o["F"]) < 3 else ">=3"))
         if k in ("polyline", "surface"):
             ctx.count("%s scenario: %s" % (k, "fresh mesh" if not c.get("pre") else
-                                           "attributes %s, then vertices %s" % ({"compute": "computed persistently", "junk": "pre-existing with arbitrary values"}[c["pre"]],
+                                           "attributes %s, then vertices %s" % ({"compute": "computed persistently", "junk": "pre-existing with arbitrary values", "sample": "left by an earlier sampling run"}[c["pre"]],
                                                                                  "moved" if c.get("V2") else "unchanged")))
         nontrivial = (c.get("n", 1) > 0 and (c.get("n1", 2) or 20) >= 2 and (c.get("n2", 2) or 20) >= 2
                       and len(c.get("P", [0, 0])) >= 2 and "exc" not in o)
@@ -1000,8 +1073,6 @@ def run(ctx):
     for i, (c, o) in enumerate(zip(cases, obs)):
         try:
             if c.get("exact"):
-                if "exc" in o and o["exc"].startswith("other:"):
-                    raise Protocol("unexpected exception " + o["exc"])
                 qterms.append(q_case_term(c, o))
                 qidx.append(i)
             else:
@@ -1011,6 +1082,10 @@ def run(ctx):
             proto.append((i, str(ex)))
         except Exception as ex:  # noqa  (malformed observation)
             proto.append((i, "cannot encode observation: %r" % ex))
+    for i, (c, o) in enumerate(zip(cases, obs)):
+        m = protocol_check(c, o)
+        if m:
+            proto.append((i, m))
     ctx.obligation("draw protocol: every run drew exactly the random numbers the model is a function of",
                    "correspondence", not proto, "; ".join("%s: %s" % (cases[i]["kind"], m) for i, m in proto[:5]))
     bad_f = bad_q = []
